@@ -315,6 +315,10 @@ func NewRequest(q Req) *http.Request {
 	if q.Escaped {
 		if dec, err := url.PathUnescape(q.Path); err == nil && dec != q.Path {
 			u.Path, u.RawPath = dec, q.Path
+		} else if err == nil && (&url.URL{Path: q.Path}).EscapedPath() != q.Path {
+			// bytes such as '{', '|' or '^' sent as they are: net/http's server keeps the target in RawPath because it is not
+			// the default encoding of Path
+			u.RawPath = q.Path
 		}
 	}
 	req := &http.Request{
